@@ -16,6 +16,7 @@ import (
 
 	"github.com/gorilla/mux"
 	ihttp "github.com/transparency-dev/witness/internal/http"
+	"github.com/transparency-dev/witness/internal/verif/kit/asmunits"
 	"github.com/transparency-dev/witness/internal/verif/kit/ev"
 	"github.com/transparency-dev/witness/internal/verif/kit/gen"
 	"github.com/transparency-dev/witness/internal/verif/kit/refnote"
@@ -39,6 +40,9 @@ func main() {
 	dir := run.Scratch()
 	n := run.Pick(1500, 40000)
 	disc := run.Pick(96, 768)
+	// the signer list as omniwitness.Main hands it to the witness: drawn key lists, checkpoints fed by a feeder
+	run.Floor("assembled_signer_sets_checked", 20)
+	run.Units("asm_signers", run.Pick(14, 140), 7, func(unit int64, r *rand.Rand) { asmunits.Signers(run, unit, r) })
 	run.Units("hist", n, 0, func(unit int64, r *rand.Rand) {
 		var router *mux.Router
 		o := wit.HistOpts{Gen: gen.Opts{NLogs: 1 + r.IntN(3), MaxSize: 40, Branches: 2, ShareKeys: true}, Schemes: schemeSets, MinSteps: 15, MaxSteps: 40, Dir: dir}
